@@ -10,8 +10,13 @@
    * tensors/display.rs:5 format_view (behind Display for Tensor, TensorView, and the first part
      of Display for TensorAccess / TensorTranspose): header "D = <D>", a newline when D > 0, the
      shape as ("name", len) pairs separated by ", ", a newline, then the D = 0 / 1 / 2 / 3 layouts.
-     The D >= 4 arm (driven by an iterator) is NOT modelled (fmt_tensor returns None there; the
-     cross-configuration digests of tools/props/c18.py cover it).
+     The D >= 4 arm (wave 2): fmt_general -- driven, like the code, by the row-major enumeration of
+     ALL indexes (TensorAccess::from_source_order(view).iter_reference().with_index()); per element
+     the indent when the column is 0, the element, ", " unless it is the last column, a newline
+     at the end of a non-final row, and at the end of a block (unless the index is the last one) a
+     newline plus one newline for every dimension n-2, n-3, .., 1 that is at its end, stopping at
+     the first that is not.  Proofs/C18FormatGP.v proves it equal to the layout defined by
+     RECURSION ON THE DIMENSIONALITY (blocks of k dimensions are joined by k-1 newlines).
    * tensors/indexing.rs:654 Display for TensorAccess: format_view, newline, "Data Layout = " and
      the Debug text of the access' data layout (for an access over a Tensor: Linear([names in the
      TENSOR's order])).
@@ -69,6 +74,13 @@ Definition t_linear : text := [76;105;110;101;97;114;40]%N.                     
 (* Debug text of a dimension name: the harness names dimension n "d<n>" *)
 Definition dbg_name (n : nat) : text := [34; 100]%N ++ dec_nat n ++ [34]%N.
 
+(* every index of a shape with these lengths, row-major (the order of ShapeIterator) *)
+Fixpoint all_idx (lens : list nat) : list (list nat) :=
+  match lens with
+  | [] => [[]]
+  | l :: rest => concat (map (fun i => map (cons i) (all_idx rest)) (seq 0 l))
+  end.
+
 Section Fmt.
 Context {E : Type} (re : option N -> E -> text) (prec : option N).
 
@@ -109,13 +121,42 @@ Definition fmt_blocks (blocks rows cols : nat) (get : nat -> nat -> nat -> E) : 
        (seq 0 blocks))
   ++ [10; 93]%N.
 
+(* ---- the D >= 4 arm `n => { .. }` of tensors/display.rs format_view.
+   `rds` is the index zipped with the lengths, REVERSED: (index[n-1], columns) :: (index[n-2], rows)
+   :: the outer dimensions n-3, .., 0.  `index != last_index` is "not every dimension at its end";
+   `for dimension in (1..(n - 1)).rev()` visits (row, rows) and then the outer dimensions without
+   dimension 0 (`removelast`). *)
+Definition at_end (p : nat * nat) : bool := Nat.eqb (fst p) (snd p - 1).
+
+Fixpoint fmt_trail (ds : list (nat * nat)) : text :=
+  match ds with
+  | p :: rest => if at_end p then t_nl ++ fmt_trail rest else []      (* `else { break }` *)
+  | [] => []
+  end.
+
+Definition fmt_gpiece (get : list nat -> E) (lens idx : list nat) : text :=
+  let rds := rev (combine idx lens) in
+  match rds with
+  | (column, columns) :: (row, rows) :: outer =>
+      (if Nat.eqb column 0 then t_indent else [])
+      ++ re prec (get idx)
+      ++ (if Nat.ltb column (columns - 1) then t_comma else [])
+      ++ (if Nat.ltb row (rows - 1) && Nat.eqb column (columns - 1) then t_nl else [])
+      ++ (if Nat.eqb row (rows - 1) && Nat.eqb column (columns - 1) && negb (forallb at_end rds)
+          then t_nl ++ fmt_trail ((row, rows) :: removelast outer) else [])
+  | _ => []
+  end.
+
+Definition fmt_general (lens : list nat) (get : list nat -> E) : text :=
+  [91; 10]%N ++ concat (map (fmt_gpiece get lens) (all_idx lens)) ++ [10; 93]%N.
+
 Definition fmt_tensor (shape : list (nat * nat)) (get : list nat -> E) : option text :=
   match shape with
   | [] => Some (fmt_header shape ++ t_open ++ re prec (get []) ++ t_close)
   | [(_, n)] => Some (fmt_header shape ++ t_open ++ fmt_cells n (fun i => get [i]) ++ t_close)
   | [(_, r); (_, c)] => Some (fmt_header shape ++ fmt_matrix r c (fun i j => get [i; j]))
   | [(_, b); (_, r); (_, c)] => Some (fmt_header shape ++ fmt_blocks b r c (fun i j k => get [i; j; k]))
-  | _ => None
+  | _ => Some (fmt_header shape ++ fmt_general (map snd shape) get)
   end.
 
 (* Debug of DataLayout::Linear([names]) *)
